@@ -278,6 +278,16 @@ def _inverse(ck, rule, prog, f, temps, p):
             seen["q"] += 1
     ck.check(seen["q"] >= 1 and seen["fxp"] >= 1, rule, p, "parser has returning paths for both notations", "paths: %s" % seen, p.node)
     ck.check(any(pf.end == "raise" for pf in pfs), rule, p, "an unrecognised format string raises", "parser never raises", p.node)
+    # a string one of the patterns matched is never rejected afterwards (every format the writer renders is constructible, oversized fractions included)
+    from ..common import path_literals as _pl
+    for pf in pfs:
+        if pf.end != "raise":
+            continue
+        matched = [t for t, pol in _pl(pf.guards) if pol and any(isinstance(x, ast.Call) and isinstance(x.func, ast.Attribute) and x.func.attr in ("match", "fullmatch") for x in ast.walk(t))]
+        if matched:
+            ck.bad(rule, p, "a format string accepted by a reader pattern is not rejected by a later check", "raises although %s matched" % src(matched[0])[:60], pf.ret_stmt or p.node,
+                   "dtype strings the writer produces (e.g. fxp-s8/12, n_frac > n_word) can no longer be fed back")
+            break
 
 
 def _reader_q_signed(prog, p):
